@@ -97,7 +97,8 @@ CLASSES = {}
 # ---------------------------------------------------------------- bounded: whole documents through the real HTML5 renderer
 import render_util as R
 
-LEAVES = ['<b>bold</b>', '\\&amp;', '\\&lt;i\\&gt;', 'a<b', 'x>y', '</p><script>alert(1)</script>', '\\&\\#60;', 'café', '<a href=x>k</a>']
+LEAVES = ['<b>bold</b>', '\\&amp;', '\\&lt;i\\&gt;', 'a<b', 'x>y', '</p><script>alert(1)</script>', '\\&\\#60;', 'café', '<a href=x>k</a>',
+          'q" onmouseover="zz', '</title><script>alert(2)</script>']
 
 
 def tex_to_text(leaf):
@@ -110,7 +111,7 @@ def bounded_render(budget, rng):
     while time.time() - t0 < min(budget, 60) * 0.7 or n < 3:
         n += 1
         leaves = rng.sample(LEAVES, 3)
-        src, words, labs, refs = R.gen_doc(rng, leaves=leaves, depth=1)
+        src, words, labs, refs = R.gen_doc(rng, leaves=leaves, depth=1, leaf_titles=True)
         esc = rng.random() < 0.5
         pages, raw = R.render(src, split_level=rng.choice([-10, 1, 2]), escape_high=esc)
         alltext = ''.join(''.join(p.text) for p in pages.values())
@@ -127,6 +128,11 @@ def bounded_render(budget, rng):
         if len(pages0) == len(pages) and tags1 != tags0:
             extra = [t for t in set(tags1) if tags1.count(t) != tags0.count(t)]
             return False, n, 'document text became markup: element inventory differs from the same document with plain words: %r' % extra, dict(src=src)
+        attrs1 = sorted(a for p in pages.values() for a in p.attrs)
+        attrs0 = sorted(a for p in pages0.values() for a in p.attrs)
+        if len(pages0) == len(pages) and attrs1 != attrs0:
+            extra = sorted(set(a for a in attrs1 if attrs1.count(a) != attrs0.count(a)))
+            return False, n, 'document text became markup: attribute inventory differs from the same document with plain words: %r' % extra[:6], dict(src=src)
         if esc and any(ord(c) > 127 for data in raw.values() for c in data):
             return False, n, 'escape-high-chars output is not pure ASCII', dict(src=src)
     return True, n, ''
